@@ -371,12 +371,23 @@ class RefServer:
     def sval(self, a):
         return a[1].decode("utf-8", "replace")
 
+    def _text_choice(self, text):
+        """status text: as given quoted (default) | as literal | quoted text containing {digits} look-alikes"""
+        if not self.authenticated:
+            return text, False
+        c = self.ch.choose("status-text-form", 3)
+        if c == 1:
+            return text, True
+        if c == 2:
+            return text + b" {1} ${2}", False
+        return text, False
+
     def ok(self, text):
-        lit = self.authenticated and self.ch.choose("status-text-literal", 2) == 1
+        text, lit = self._text_choice(text)
         self.emit(status(b"OK", None, text, literal=lit))
 
     def no(self, rcode, text):
-        lit = self.authenticated and self.ch.choose("status-text-literal", 2) == 1
+        text, lit = self._text_choice(text)
         self.emit(status(b"NO", rcode, text, literal=lit))
 
     def do_CAPABILITY(self, args):
